@@ -162,6 +162,7 @@ def setup(ctx):
 
 
 def teardown(ctx):
+    rt_io.flush_stats(ctx)
     taps.report(ctx)
     taps.remove_all()
 
@@ -945,7 +946,7 @@ def run_rew(ctx, rng, idx, tmp):
     def rew_on(sub, n):
         names = sorted(sub)
         w = PE.Obs([1.0 + 0.05 * rng.normal(size=len(sub[c])) for c in names], names, idl=[sub[c] for c in names])
-        return PE.reweight(w, [rt_io.primary(PE, rng, sub, str(rng.choice(['white', 'ar', 'counts']))) for _ in range(n)],
+        return PE.reweight(w, [rt_io.primary(PE, rng, sub, str(rng.choice(['white', 'ar', 'counts'])), special=False) for _ in range(n)],
                            all_configs=bool(rng.integers(0, 2)))
     n = 1 if how in ('reweight', 'merge') else int(rng.integers(2, 4))
     if 'merge' in how:
@@ -982,7 +983,7 @@ def run_rew(ctx, rng, idx, tmp):
             return
     # stored state: a structure of the same shape on the same chains that is NOT reweighted, written before and after
     def plain_twin():
-        mk = lambda: rt_io.primary(PE, rng, chains, 'white')
+        mk = lambda: rt_io.primary(PE, rng, chains, 'white', special=False)
         if what == 'obs':
             return mk()
         if what == 'corr1':
